@@ -58,7 +58,7 @@ def kinds(rng, proto, n, c):
     return ks
 
 
-def gen(seed: int, i: int, tier: str) -> dict:
+def _gen(seed: int, i: int, tier: str) -> dict:
     rng = random.Random(f"C10:{seed}:{i}")
     nshort = G.short_history_count(len(SHORT), 4)
     short = None
@@ -89,12 +89,19 @@ def gen(seed: int, i: int, tier: str) -> dict:
             ops.append(["line", rng.choice(kinds(rng, proto, n, rng.choice([0, 1, 7])))])
         if rng.random() < 0.05:
             ops.append(["relisten"])
+        if rng.random() < 0.02:
+            ops.append(["reenter"])
         if rng.random() < 0.08:
             # the gateway reports its (unchanged) version / presents itself again: episodes of other nodes go on
             ops.append(["line", rng.choice([f"0;255;3;0;2;{proto}\n", f"0;255;0;0;18;{proto}\n"])])
     fails = [rng.choice([0, 0, 0, 1, 2]) for _ in range(rng.randint(0, 6))] if rng.random() < 0.6 else []
     lat = [rng.choice([0, 1]) for _ in range(8)] if rng.random() < 0.3 else []
     return {"cfg": {"pin": proto}, "ops": ops, "tapes": {"w.fail.pres": fails, "w.lat": lat}}
+
+
+def gen(seed: int, i: int, tier: str) -> dict:
+    scn = _gen(seed, i, tier)
+    return G.maybe_tcp(random.Random(f"C10link:{seed}:{i}"), scn)
 
 
 def run(scn):
